@@ -142,13 +142,30 @@ func (ab *AccessBarrier) doCleanup() {
 			return
 		}
 
-		ab.freeSeqno++
+		atomic.AddUint64(&ab.freeSeqno, 1)
 		vyield(SiteCleanupCallb)
 		ab.callb(bs.objectRef)
 		vyield(SiteCleanupDelete)
 		ab.freeq.DeleteNode(node, CompareBS, buf2, &ab.freeq.Stats)
 		ab.numFreed++
 	}
+}
+
+// cleanupPending returns true if the oldest queued session is the next one
+// to be destructed.
+func (ab *AccessBarrier) cleanupPending() bool {
+	buf := ab.freeq.MakeBuf()
+	defer ab.freeq.FreeBuf(buf)
+
+	iter := ab.freeq.NewIterator(CompareBS, buf)
+	defer iter.Close()
+
+	iter.SeekFirst()
+	if !iter.Valid() {
+		return false
+	}
+	bs := (*BarrierSession)(iter.Get())
+	return bs.seqno == atomic.LoadUint64(&ab.freeSeqno)+1
 }
 
 // Acquire marks enter of an accessor in the skiplist
@@ -188,11 +205,21 @@ func (ab *AccessBarrier) Release(bs *BarrierSession) {
 				if !ab.freeq.Insert(unsafe.Pointer(bs), CompareBS, buf, &ab.freeq.Stats) {
 					panic("unable to insert barrier session into free list")
 				}
-				vyield(SiteRelTryLock)
-				if atomic.CompareAndSwapInt32(&ab.isDestructorRunning, 0, 1) {
+				// A session queued while another goroutine holds the destructor
+				// lock is not seen by that goroutine once it has finished walking
+				// the queue. Whoever releases the lock re-checks the queue, so a
+				// terminated session never waits for some future termination.
+				for {
+					vyield(SiteRelTryLock)
+					if !atomic.CompareAndSwapInt32(&ab.isDestructorRunning, 0, 1) {
+						break
+					}
 					ab.doCleanup()
 					vyield(SiteRelTryUnlock)
 					atomic.CompareAndSwapInt32(&ab.isDestructorRunning, 1, 0)
+					if !ab.cleanupPending() {
+						break
+					}
 				}
 			}
 		} else if liveCount < 0 || liveCount == barrierFlushOffset-1 {
